@@ -97,6 +97,100 @@ def run(chk):
             break
         nrb += nb
         nhuf += sum(1 for t in kinds if t >= 2)
+    # the literals part of every compressed block from the literals alone: the model of compress_block's literals part
+    # with compress_literals, write_table, can_encode (model/LitComp.v) -- raw below 1025 literals or for a single
+    # symbol, Huffman with a new table (direct or FSE-compressed description) or treeless with the remembered table
+    # when the code lengths differ by at most 5, raw again when not smaller; the remembered table forgotten after a
+    # block stored raw -- carried over the blocks of the frame must write the literals section of every real block
+    # inputs made for the table decisions: blocks of 128 KiB drawn from a skewed byte distribution that stays, is
+    # jittered, has two symbols swapped, gets a new symbol or is redrawn from block to block, so that the code-length
+    # difference to the remembered table falls below and above the threshold and new symbols rule the old table out
+    def drift_input(nblocks):
+        k = rng.choice([3, 5, 8, 12, 17, 24])
+        pool = list(range(17 if (k <= 12 and rng.below(3) == 0) else 256))
+        for i in range(len(pool) - 1, 0, -1):
+            j = rng.below(i + 1)
+            pool[i], pool[j] = pool[j], pool[i]
+        syms, spare = pool[:k], (pool[k:k + 6] + pool[:6])[:6]
+        def draw():
+            e = rng.choice([1, 2, 4])
+            return [((1 + rng.below(1000)) / 1000.0) ** e + 0.01 for _ in range(k)]
+        wts = draw()
+        out, modes = bytearray(), []
+        for b in range(nblocks):
+            mode = rng.choice(['same', 'same', 'jitter', 'swap', 'newsym', 'reshape']) if b else 'first'
+            if mode == 'jitter':
+                wts = [w * rng.choice([0.7, 1, 1, 1.4]) for w in wts]
+            elif mode == 'swap':
+                i, j = rng.below(k), rng.below(k)
+                wts[i], wts[j] = wts[j], wts[i]
+            elif mode == 'newsym':
+                syms = list(syms)
+                syms[rng.below(k)] = spare[rng.below(6)]
+            elif mode == 'reshape':
+                wts = draw()
+            modes.append(mode)
+            tot = sum(wts)
+            cum, acc = [], 0.0
+            for w in wts:
+                acc += w / tot
+                cum.append(acc)
+            import bisect
+            out += bytes(syms[min(k - 1, bisect.bisect_left(cum, rng.below(1 << 24) / float(1 << 24)))] for _ in range(131072))
+        return bytes(out), modes
+    drift = [drift_input(rng.range(2, 4)) for _ in range(30 if thorough else 12)]
+    dres = zh_par('codec', ['renc 1 %s 0' % hexs(d) for d, m in drift])
+    ditems = []
+    for (d, m), r in zip(drift, dres):
+        w = (r or 'missing').split()
+        if w[0] != 'ok' or len(w) != 2:
+            chk.violation('the compressor %s for an input with a drifting byte distribution' % ('panicked' if w[0] == 'panic' else 'failed: ' + w[0]),
+                          {'component': 'roundtrip', 'command': ('renc 1 %s 0' % hexs(d))[:2000000], 'how': 'echo "<command>" | _build/cargo/release/zh codec'})
+            continue
+        ditems.append((unhex(w[1]), d, 'drifting distribution (%s), level 1' % '/'.join(m), 'renc 1 %s 0' % hexs(d)))
+    decode_checks(chk, 'roundtrip-drift', [(f, d, l) for f, d, l, ln in ditems], nbad,
+                  lambda i: {'command': ditems[i][3][:2000000], 'how': 'echo "<command>" | _build/cargo/release/zh codec ; decode the printed frame'})
+    cl, cmeta, nskipped = [], [], [0]
+    for f, d, l, ln in ditems + items:
+        if 'level 1' not in l:
+            continue
+        w = framegen.walk_blocks(f)
+        blocks = w[1] if w else []
+        if not any(ty == 2 for (p, last, ty, size, body) in blocks):
+            continue
+        if sum(body for (p, last, ty, size, body) in blocks) > (400000 if thorough else 150000) and not l.startswith('drifting'):
+            continue
+        # the executable model is super-linear in the number of Huffman-coded literals of a block: leave out frames with
+        # a block above the budget (counted in the evidence)
+        def huf_regen(b):
+            if len(b) < 3 or (b[0] & 3) < 2:
+                return 0
+            sf = (b[0] >> 2) & 3
+            return (b[0] >> 4) + (((b[1] & 0x3f) << 4) if sf < 2 else ((b[1] << 4) + ((b[2] & 3) << 12)) if sf == 2 else ((b[1] << 4) + ((b[2] & 0x3f) << 12)))
+        if max(huf_regen(f[p + 3:p + 3 + body]) for (p, last, ty, size, body) in blocks if ty == 2) > (131072 if thorough else 40000):
+            nskipped[0] += 1
+            continue
+        cl.append(' '.join('R' if ty == 1 else 'W' if ty == 0 else hexs(f[p + 3:p + 3 + body]) for (p, last, ty, size, body) in blocks))
+        cmeta.append((l, sum(1 for b in blocks if b[2] == 2)))
+    cl, cmeta = cl[:300 if thorough else 70], cmeta[:300 if thorough else 70]
+    cr = model_run('litchain', cl, timeout=2400, jobs=14, per_job=1)
+    nlit = 0
+    kinds_seen = {}
+    for (l, nb), r in zip(cmeta, cr):
+        w = (r or 'missing').split()
+        if len(w) != nb + 1 or w[0] != 'ok':
+            chk.tie_broken('correspondence:literals-part', 'the model of the literals part could not follow the blocks of a real frame (%s): %s' % (l, (r or '')[:80]))
+            break
+        if any(x[0] != '1' for x in w[1:]):
+            k = [x[0] for x in w[1:]].index('0')
+            chk.tie_broken('correspondence:literals-part', 'the model of the literals part (raw / new table / treeless decision, description, streams) does not write the literals section of compressed block %d of a real frame (%s; literals type %s)' % (k, l, w[1 + k][1:]))
+            break
+        nlit += nb
+        for x in w[1:]:
+            kinds_seen[x[1:]] = kinds_seen.get(x[1:], 0) + 1
+    chk.cov['components']['literals-part'] = {'frames': len(cl), 'blocks_identical': nlit, 'literals_types': kinds_seen, 'frames_left_out_for_cost': nskipped[0],
+                                               'drift_frames': sum(1 for m in cmeta if m[0].startswith('drifting'))}
+    chk.cov['evaluations'] += nlit
     # ... and from the data: for small single-block inputs whose block has raw literals, the match finder model's report,
     # split as compress_block splits it, written by the block model, must be the real block (this is the chain of
     # C02_fastest_block_step_with_raw_literals executed end to end)
